@@ -70,7 +70,7 @@ def createOperand (s : Str) (row : InstrRow) : R Operand :=
     match v0 with
     | .error e => .error e
     | .ok v =>
-      if row.isPseudoDefine then
+      if row.isPseudoDefine && v.isNumeric then
         match v.int? with
         | none => .error .other
         | some i =>
